@@ -55,8 +55,12 @@ def _case(draw):
     d["grain_symbol"] = "GRAIN"
     if not d["elements"]:
         # init writes the default lists when none is given; ask for them explicitly so that the request is known
-        d["elements"] = ["e", "E", "H", "D", "He", "C", "N", "O", "Si", "S", "Mg"]
+        d["elements"] = ["e", "E", "H", "D", "He", "C", "N", "O", "Si", "S", "Mg"] + sorted({"Ar", "Fe", "Na"} & set(d["required"]))
         d["pseudo"] = ["CR", "CRP", "Photon", "PHOTON", "CRPHOT"]
+    if draw(st.integers(0, 2)) == 0:
+        # pseudo-elements are regular expressions (the default list carries the excited-state marker as '\\*' and the
+        # isomer prefixes 'c-', 'l-'): they must reach the configuration verbatim
+        d["pseudo"] = list(d["pseudo"]) + draw(st.sampled_from([["\\*"], ["c-", "l-"], ["c-", "\\*"]]))
     d["cooling"] = []
     d["shielding"] = draw(st.sampled_from([{}, {}, {"CO": "VB88Table"}, {"H2": "L96Table", "CO": "V09Table"}]))
     if d["fmt"] in ("kida", "umist", "naunet") and draw(st.booleans()):
@@ -79,6 +83,10 @@ def _export_case(draw):
     # API users give numbers as well as expression strings
     if d["rate_mod"] or draw(st.booleans()):
         d["rate_mod"] = {draw(st.sampled_from(["1", "2"])): draw(st.sampled_from([0.0, 0.0, 1.0e-10, "0.0", "1.0e-9 * nH"]))}
+    # the project directory may already hold an earlier export of another network (export(..., overwrite=True) again)
+    if draw(st.booleans()):
+        prev = draw(_case())
+        d["previous"] = {k: prev[k] for k in prev if k != "spacing"}
     return d
 
 
@@ -372,14 +380,16 @@ def run_api(payload):
             ent = om.setdefault(t, {"factors": [], "reactants": []})
             ent["factors"].append(f)
             ent["reactants"].append(list(deps))
-        net = Network(
-            filelist=[fname] if fname and d["text"] else [], fileformats=[d["fmt"]] if fname and d["text"] else [], elements=list(d["elements"]), pseudo_elements=list(d["pseudo"]),
-            allowed_species=list(d["allowed"]), required_species=list(d["required"]), species_kwargs=sk, grain_model=d["grain_model"],
-            heating=[], cooling=list(d["cooling"]), shielding=dict(d["shielding"]),
-            rate_modifier={int(k): v for k, v in d["rate_mod"].items()}, ode_modifier=om,
-        )
         s, m, dv = d["backend"]
         try:
+            # a description the API itself refuses (e.g. a shrunk variant whose element list lost a symbol that a
+            # species needs) is outside the domain of the round trip
+            net = Network(
+                filelist=[fname] if fname and d["text"] else [], fileformats=[d["fmt"]] if fname and d["text"] else [], elements=list(d["elements"]), pseudo_elements=list(d["pseudo"]),
+                allowed_species=list(d["allowed"]), required_species=list(d["required"]), species_kwargs=sk, grain_model=d["grain_model"],
+                heating=[], cooling=list(d["cooling"]), shielding=dict(d["shielding"]),
+                rate_modifier={int(k): v for k, v in d["rate_mod"].items()}, ode_modifier=om,
+            )
             TemplateLoader(s, m, dv).render(d["name"], net, path=Path(root))
         except Exception as e:
             return {"raised": f"{type(e).__name__}: {str(e)[:200]}"}
@@ -400,7 +410,7 @@ def run_export(payload):
     from naunet.chemistrydata import update_binding_energy, update_photon_yield
 
     d = payload["desc"]
-    root = tempfile.mkdtemp(prefix="vt-")
+    root = payload.get("root") or tempfile.mkdtemp(prefix="vt-")
     cwd = os.getcwd()
     try:
         os.chdir(root)
@@ -426,6 +436,9 @@ def run_export(payload):
         s, m, dv = d["backend"]
         try:
             net.export("vtexp", solver=s, method=m, device=dv, prefix=root, overwrite=True)
+            if payload.get("again"):
+                # export the same network once more into the now existing directory
+                net.export("vtexp", solver=s, method=m, device=dv, prefix=root, overwrite=True)
         except Exception as e:
             import traceback
 
@@ -435,7 +448,8 @@ def run_export(payload):
         return {"config": (Path(root) / "vtexp" / "naunet_config.toml").read_text()}
     finally:
         os.chdir(cwd)
-        shutil.rmtree(root, ignore_errors=True)
+        if not payload.get("root"):
+            shutil.rmtree(root, ignore_errors=True)
 
 
 def check_export(d):
@@ -447,7 +461,17 @@ def check_export(d):
     api = call("vtlib.checks.c20", "run_api", {"desc": d})
     if "raised" in api:
         return CaseResult(discarded=True)
-    res = call("vtlib.checks.c20", "run_export", {"desc": d})
+    if d.get("previous"):
+        # an earlier export of another description into the same directory, in its own process; the directory is kept
+        labels.append("export-into-existing-project")
+        keep = tempfile.mkdtemp(prefix="vt-")
+        try:
+            prev = call("vtlib.checks.c20", "run_export", {"desc": dict(d["previous"], spacing=d["spacing"]), "root": keep})
+            res = call("vtlib.checks.c20", "run_export", {"desc": d, "root": keep}) if "raised" not in prev else call("vtlib.checks.c20", "run_export", {"desc": d})
+        finally:
+            shutil.rmtree(keep, ignore_errors=True)
+    else:
+        res = call("vtlib.checks.c20", "run_export", {"desc": d})
     if "raised" in res:
         failures.append((f"export/raises/{res['raised'].split(':')[0]}", res["raised"]))
         return CaseResult(failures, True, labels, sample={"rate_mod": d["rate_mod"]})
